@@ -699,6 +699,7 @@ main(int argc, char **argv) {
       nout << "Unable to write to " << output_data_filename << "\n";
       status = -1;
     } else {
+      VERIF_EVENT("{\"e\":\"BuildDone\"}");
       InterrogateDatabase::get_ptr()->write(output_data, def);
 
       output_data.close();
